@@ -32,10 +32,6 @@ def universe(tier, formats=True, algorithm="SHA-256"):
     else:
         a = dict(pids=["a", "ab", "b"], contents=[b"x", b"0123456789ab"],
                  formats=[None, "c", "bc"] if formats else [None], algorithm=algorithm)
-    from engine import mutants
-    m = mutants.selected()
-    if m is not None and m[0] == "filehashstore.py":
-        a["mutate"] = m[1]
     return a
 
 
@@ -112,7 +108,10 @@ def collect(run, results, mine, w_args, menu_fn, ignore=()):
                               call=r["call"]))
 
 
-def make_replayer(w_args, menu_fn):
+def make_replayer(w_args, menu_fn, kernels_fn=None):
     def replay(payload):
+        if payload.get("harness") == "xh":
+            from engine import xh
+            return xh.replay_kernel(kernels_fn(), payload)
         return step.replay_native(w_args, menu_fn, payload["vals"], payload["clauses"])
     return replay
